@@ -1,6 +1,136 @@
-//! Kani harnesses for core/src/page_id.rs (compiled into the real crate only under cfg(kani)).
+//! K2 (page ids): core/src/page_id.rs - the 256-bit disambiguated encoding that labels every stored
+//! merkle page (hash-table file, WAL).  C16: a page's label decodes to exactly its id.
 #![allow(unused_imports, dead_code)]
 use super::*;
 
+/// decode(encode(id)) == id for a page id of `n` levels (n concrete per harness) with symbolic child
+/// indices 0..=63; the encoding of a deeper id is never the root's, and parent/child ids are
+/// consistent with the path.
+fn page_id_roundtrip(n: usize) {
+    let mut id = ROOT_PAGE_ID;
+    let idx: [u8; 42] = kani::any();
+    let mut i = 0;
+    while i < n {
+        kani::assume(idx[i] <= MAX_CHILD_INDEX);
+        id = id.child_page_id(ChildPageIndex::new(idx[i]).unwrap()).unwrap();
+        i += 1;
+    }
+    assert!(id.depth() == n);
+    let enc = id.encode();
+    match PageId::decode(enc) {
+        Ok(d) => {
+            assert!(d == id);
+            let mut i = 0;
+            while i < n {
+                assert!(d.child_index_at_level(i).to_u8() == idx[i]);
+                i += 1;
+            }
+        }
+        Err(_) => assert!(false, "encoding of a valid page id rejected"),
+    }
+    if n > 0 {
+        assert!(enc != ROOT_PAGE_ID.encode());
+    }
+    kani::cover!(true, "reachable");
+}
+
+macro_rules! page_id_harness {
+    ($name:ident, $n:expr, $u:expr) => {
+        #[kani::proof]
+        #[kani::unwind($u)]
+        fn $name() {
+            page_id_roundtrip($n);
+        }
+    };
+}
+// unwind 44: decode()'s sextet loop runs at most 42 times and ruint's byte loops 32 times; the
+// unwinding assertions stay on, so a pass is complete for the stated depth.
+page_id_harness!(page_id_roundtrip_0, 0, 44);
+page_id_harness!(page_id_roundtrip_1, 1, 44);
+page_id_harness!(page_id_roundtrip_2, 2, 44);
+page_id_harness!(page_id_roundtrip_3, 3, 44);
+page_id_harness!(page_id_roundtrip_9, 9, 44);
+page_id_harness!(page_id_roundtrip_10, 10, 44);
+
 #[cfg(test)]
 include!("/verif/.build/playback/core_page_id.inc");
+
+#[cfg(test)]
+fn native_mk(path: &[u8]) -> PageId {
+    let mut id = ROOT_PAGE_ID;
+    for &l in path {
+        id = id.child_page_id(ChildPageIndex::new(l).unwrap()).unwrap();
+    }
+    id
+}
+
+#[cfg(test)]
+fn native_spec_encode(path: &[u8]) -> [u8; 32] {
+    // docs/nomt_specification.md: page_ids[i] = (prev_page_id << 6) + dtet + 1, as a 256-bit
+    // big-endian integer - written here with schoolbook byte arithmetic, independent of ruint
+    let mut n = [0u8; 32];
+    for &l in path {
+        let mut carry: u32 = (l as u32) + 1;
+        for b in n.iter_mut().rev() {
+            let v = ((*b as u32) << 6) + carry;
+            *b = (v & 0xff) as u8;
+            carry = v >> 8;
+        }
+        assert!(carry == 0, "spec encoding overflows 256 bits");
+    }
+    n
+}
+
+#[cfg(test)]
+fn native_check(path: &[u8]) -> [u8; 32] {
+    let id = native_mk(path);
+    let enc = id.encode();
+    assert!(enc == native_spec_encode(path), "encode differs from the documented format: path={:?} enc={:?}", path, enc);
+    let d = PageId::decode(enc).unwrap_or_else(|_| panic!("encoding of a valid id rejected: path={:?}", path));
+    assert!(d == id, "path={:?} enc={:?} decoded={:?}", path, enc, d);
+    enc
+}
+
+/// Bounded native enumeration (not a proof): every id of depth 0..=3 (266 305 ids), and for every
+/// depth 4..=42 three base patterns with every child index at every level - encode equals the
+/// documented format, decode inverts it, and ids differing in one level get different labels.
+#[cfg(test)]
+#[test]
+fn native_enum_page_id_codec() {
+    let mut n = 0u64;
+    native_check(&[]);
+    for a in 0..=MAX_CHILD_INDEX {
+        native_check(&[a]);
+        for b in 0..=MAX_CHILD_INDEX {
+            native_check(&[a, b]);
+            for c in 0..=MAX_CHILD_INDEX {
+                native_check(&[a, b, c]);
+                n += 1;
+            }
+        }
+    }
+    for depth in 4..=42usize {
+        for base in [0u8, 63, 21] {
+            let mut path = vec![base; depth];
+            if base == 21 {
+                for (i, l) in path.iter_mut().enumerate() {
+                    *l = ((i * 37 + 11) % 64) as u8;
+                }
+            }
+            let base_enc = native_check(&path);
+            for pos in 0..depth {
+                let keep = path[pos];
+                for v in 0..=MAX_CHILD_INDEX {
+                    path[pos] = v;
+                    let enc = native_check(&path);
+                    assert!((enc == base_enc) == (v == keep), "two page ids share a label: depth={} pos={} v={} keep={}", depth, pos, v, keep);
+                    n += 1;
+                }
+                path[pos] = keep;
+            }
+        }
+    }
+    assert!(n > 400_000);
+    // labels above the highest depth-42 id are rejected, not wrapped
+    assert!(PageId::decode([0xff; 32]).is_err());
+}
